@@ -28,7 +28,7 @@ ASSUMPTIONS = [
     "helper twins are not compared for mode/count_unique when missing values are kept (drop_na=False), see C07",
 ]
 REACH = {"quick": {"op:aggregate": 2000, "op:count": 500, "op:split": 500, "op:modify": 500, "na-key": 1000, "multi-col": 1000,
-                   "twin-compared": 1000, "tag:float_hostile": 100, "after-inplace-edit": 500}}
+                   "twin-compared": 1000, "tag:float_hostile": 100, "after-inplace-edit": 500, "tag:big": 8}}
 
 GKINDS = ["int", "str", "float", "bool", "date", "datetime", "lstr", "ustr", "obool", "float", "str", "timedelta", "uint64", "int"]
 HELPERS = [("all", {}), ("any", {}), ("count", {}), ("count", {"drop_na": True}), ("count_unique", {}), ("count_unique", {"drop_na": True}),
@@ -40,6 +40,9 @@ def generate(rng, tier):
     tags = set()
     r = rng.random()
     nrow = 0 if r < 0.03 else (1 if r < 0.08 else rng.randint(2, 40 if tier == "quick" else 150))
+    if rng.random() < 0.004:
+        nrow = rng.choice([400, 1300, 10050])     # groups of > 128 / > 1000 rows, > 10 000 rows in all
+        tags.add("big")
     ng = rng.choice([1, 1, 2, 2, 3])
     spec = [("_rid_", "int", list(range(nrow)))]
     by = []
